@@ -427,6 +427,8 @@ def oracle_t(case, obs):
     tol = lib.unhex(o['tol'])
     out = obs['out']
     unchanged = (obs['vals'] == case['vals'] and obs['status'] == case['status'] and obs['iters'] == case['iters'])
+    if o['errors'] not in sc.ERRMODES:
+        return fails          # an invalid `errors` value: the statement prescribes nothing (not even WHEN the ValueError may come)
     if o['min_iter'] > o['max_iter']:
         if out[:2] != ['raise', 'ValueError'] or not unchanged or obs['log']:
             bad('min_iter>max_iter', 'min_iter > max_iter must raise ValueError before anything changes; got %s, unchanged=%s' % (out, unchanged))
